@@ -36,7 +36,7 @@ pub fn corpus_cases() -> Vec<Vec<String>> {
 }
 
 #[derive(Clone, Copy, PartialEq)]
-enum A {
+pub enum A {
     Key,
     /// recent-blockhashes account: the client supplies it, the reference hard-codes the sysvar id
     Rb,
@@ -50,7 +50,7 @@ enum A {
     Auth,
 }
 
-const SPECS: &[(&str, &[A])] = &[
+pub const SPECS: &[(&str, &[A])] = &[
     ("sys.CreateAccount", &[A::Key, A::Key, A::U64, A::U64, A::Key]),
     ("sys.Assign", &[A::Key, A::Key]),
     ("sys.Transfer", &[A::Key, A::Key, A::U64]),
@@ -84,6 +84,13 @@ const SPECS: &[(&str, &[A])] = &[
     ("tok.GetAccountDataSize", &[A::Key]),
     ("tok.InitializeImmutableOwner", &[A::Key]),
     ("tok.AmountToUiAmount", &[A::Key, A::U64]),
+];
+
+/// the ATA instructions (generated separately: their accounts are derived addresses)
+pub const ATA_SPECS: &[(&str, &[A])] = &[
+    ("ata.Create", &[A::Key, A::Key, A::Key, A::Key, A::OptTok, A::OptTok]),
+    ("ata.CreateIdempotent", &[A::Key, A::Key, A::Key, A::Key, A::OptTok, A::OptTok]),
+    ("ata.RecoverNested", &[A::Key, A::Key, A::Key, A::Key, A::Key, A::Key, A::OptTok]),
 ];
 
 const U64S: &[u64] = &[0, 1, 255, 256, 65_535, 4_294_967_295, 4_294_967_296, 1 << 63, u64::MAX - 1, u64::MAX, 0x0102_0304_0506_0708];
@@ -436,6 +443,13 @@ fn stale_token_images(rng: &mut Rng) -> Vec<(String, Vec<u8>)> {
     out
 }
 
+const CPI_MODES: &[&str] = &["exact", "more", "all", "none"];
+
+/// the CPI build of the same instruction (`ix …` -> `cpi <mode> …`)
+fn to_cpi(ix_line: &str, mode: &str) -> String {
+    format!("cpi {mode} {}", ix_line.strip_prefix("ix ").expect("an ix op"))
+}
+
 struct Out {
     cases: Vec<Vec<String>>,
 }
@@ -491,6 +505,9 @@ pub fn generate(args: &Args) -> Vec<Vec<String>> {
     let mut out = Out { cases: vec![] };
     let scale: usize = if args.thorough() { 16 } else { 2 };
 
+    // ---- every generated-table entry against the compiled code
+    out.push("tables", crate::tables::table_ops());
+
     // ---- boundary enumerations: every instruction, every argument axis
     for rep in 0..scale {
         for spec in SPECS {
@@ -499,6 +516,25 @@ pub fn generate(args: &Args) -> Vec<Vec<String>> {
                 out.push(&format!("ix {} axis {pos} round {rep}", spec.0), ops);
             }
             out.push(&format!("ix {} random round {rep}", spec.0), (0..4).map(|_| random_ix(&mut rng, spec)).collect());
+            // the CPI build: the same arguments through the client path and through the CPI path with the
+            // supplied infos holding exactly the required privileges / strictly more / all / none
+            let mut ops = vec![];
+            for _ in 0..2 {
+                let ix = random_ix(&mut rng, spec);
+                ops.extend(CPI_MODES.iter().map(|m| to_cpi(&ix, m)));
+                ops.push(ix);
+            }
+            out.push(&format!("cpi {} modes round {rep}", spec.0), ops);
+            // every signer-list length, every optional present/absent, on the CPI path with more privileges
+            for pos in 0..spec.1.len() {
+                if matches!(spec.1[pos], A::Keys | A::OptRent | A::Rb) {
+                    let ops: Vec<String> = axis(&mut rng, spec, pos)
+                        .iter()
+                        .flat_map(|ix| [to_cpi(ix, "more"), to_cpi(ix, "exact")])
+                        .collect();
+                    out.push(&format!("cpi {} axis {pos} round {rep}", spec.0), ops);
+                }
+            }
         }
         // ATA instructions: every optional present / absent / other, derived and non-derived keys
         for which in 0..3u64 {
@@ -509,7 +545,9 @@ pub fn generate(args: &Args) -> Vec<Vec<String>> {
                 }
             }
             ops.push(ata_ix(&mut rng, which, None, None, false));
+            let cpi_ops: Vec<String> = ops.iter().flat_map(|ix| CPI_MODES.iter().map(move |m| to_cpi(ix, m))).collect();
             out.push(&format!("ix ata {which} optionals round {rep}"), ops);
+            out.push(&format!("cpi ata {which} optionals round {rep}"), cpi_ops);
         }
     }
 
@@ -600,14 +638,26 @@ pub fn generate(args: &Args) -> Vec<Vec<String>> {
             0..=3 => {
                 let spec = rng.pick(SPECS);
                 let n = rng.range(1, 3);
-                out.push(&format!("ix {} prng", spec.0), (0..n).map(|_| random_ix(&mut rng, spec)).collect());
+                let ops: Vec<String> = (0..n)
+                    .map(|_| {
+                        let ix = random_ix(&mut rng, spec);
+                        if rng.chance(1, 3) {
+                            to_cpi(&ix, *rng.pick(CPI_MODES))
+                        } else {
+                            ix
+                        }
+                    })
+                    .collect();
+                out.push(&format!("ix {} prng", spec.0), ops);
             }
             4 => {
                 let which = rng.below(3);
                 let sp = pick_opt(&mut rng, sys_id());
                 let tp = pick_opt(&mut rng, tok_id());
                 let derived = !rng.chance(1, 10);
-                out.push("ix ata prng", vec![ata_ix(&mut rng, which, sp, tp, derived)]);
+                let ix = ata_ix(&mut rng, which, sp, tp, derived);
+                let op = if rng.chance(1, 3) { to_cpi(&ix, *rng.pick(CPI_MODES)) } else { ix };
+                out.push("ix ata prng", vec![op]);
             }
             5 | 6 => {
                 let mut b = pack_mint(random_mint(&mut rng));
